@@ -2803,6 +2803,19 @@ func (p *Posix) PutObject(ctx context.Context, po s3response.PutObjectInput) (s3
 			return s3response.PutObjectOutput{}, err
 		}
 
+		// like any object that is put again, the directory object starts
+		// without the user metadata of the one it replaces (the directory
+		// itself stays, and with it the attributes stored on it)
+		oldMeta := make(map[string]string)
+		p.loadObjectMetaData(*po.Bucket, *po.Key, nil, oldMeta)
+		for k := range oldMeta {
+			err := p.meta.DeleteAttribute(*po.Bucket, *po.Key,
+				fmt.Sprintf("%v.%v", metaHdr, k))
+			if err != nil && !errors.Is(err, meta.ErrNoSuchKey) {
+				return s3response.PutObjectOutput{}, fmt.Errorf("delete user metadata: %w", err)
+			}
+		}
+
 		for k, v := range po.Metadata {
 			err := p.meta.StoreAttribute(nil, *po.Bucket, *po.Key,
 				fmt.Sprintf("%v.%v", metaHdr, k), []byte(v))
